@@ -88,16 +88,19 @@ def judge(ctx, recs, shards, tag):
         return [], [], [], 0
     starts = [k for k, r in enumerate(recs) if r["ev"] in ("File", "BinFile")]
     shards = max(1, min(shards, len(starts), (len(recs) + 799) // 800))
-    per = (len(starts) + shards - 1) // shards
-    cuts = [starts[k] for k in range(0, len(starts), per)] + [len(recs)]
+    # inputs are dealt round-robin: costly ones (many reports) sit next to each other in the sorted input list
+    bounds = starts + [len(recs)]
+    parts = [[] for _ in range(shards)]
+    for n in range(len(starts)):
+        parts[n % shards].extend(recs[bounds[n]:bounds[n + 1]])
     base = open(os.path.join(vlib.SPEC_DIR, "ScanTrace.tla")).read()
     ctx._spec_copy()
-    out = [None] * (len(cuts) - 1)
+    out = [None] * shards
     errs = []
 
     def one(k):
         try:
-            part = recs[cuts[k]:cuts[k + 1]]
+            part = parts[k]
             mod = "ScanTrace_%s%d" % (tag, k)
             tf = "c11_trace_%s%d.ndjson" % (tag, k)
             p = write_ndjson(ctx.path("judge", tf), part)
